@@ -201,7 +201,8 @@ theorem insertKnot_open (b : Basis K) (hv : b.Valid) (hper : b.periodic = -1) (x
   refine ⟨{ b with knots := Basis.insertAt b.knots mu x }, matC b.kn x b.numFunctions b.order mu,
     ?_, ⟨?_, rfl, rfl, hsize, ?_, hstart, hstop, (rel_matC _ _ _ _ _ (by omega)).1, ?_⟩, hkn,
     perm_insertAt _ _ _⟩
-  · rw [insertKnot_eq]
+  · rw [insertKnot_eq b x (not_coverCond_of_nonperiodic b (by rw [hper]; decide))
+      (fun y _ => insertMu_nonperiodic b (by rw [hper]; decide) y)]
     have hw : wrapX b x = .ok x := by
       unfold wrapX
       rw [if_neg (by rw [hper]; decide),
